@@ -55,6 +55,7 @@ func restInit() {
 		}
 	}
 	restHandler()
+	irt.VirtualTime(true) // waits the handlers ask for are accounted (C19) and skipped, never spent
 }
 
 // doInProc runs one request in-process and compares with the reference.
